@@ -4,7 +4,7 @@ import Model.BTreeCow
 /-!
 driver ops of C19 (prefix `c19.`).
 
-`c19.hist <t> <in_order> <collapse_always> op op …` (collapse_always: which `_delete` variant the code
+`c19.hist <t> <in_order> <collapse_always> <is_set> op op …` (collapse_always: which `_delete` variant the code
 implements, see `Model.BTree.deleteRoot`; probed by the harness on every run) runs a whole history on the model and prints one result token per op.
 Handles: tree 0 is created by the header; `C,h,io` appends a clone; `c,h` appends a cursor.
 
@@ -12,6 +12,7 @@ ops (comma separated fields):
   `I,h,k,v` insert_element   `D,h,k` delete_key   `X,h,k,v` delete_exact      → `res|len|shape|digests`
   `G,h,k` get_element  `L,h` len  `T,h` in-order items  `M,h` minimum/maximum  `S,h` shape
   `C,h,io` clone  `F,h` make_immutable
+  `O,h,k` d.pop(k)  `R,h,k` del d[k] / s.remove(k)  `g,h,k` k in d  `K,h` list(d)  `V,h` d.values()
   `c,h` new (registered) cursor  `s,c,k,b` seek  `n,c` next  `p,c` prev  `f,c` seek_first  `l,c` seek_last
   `P,c` park  `x,c` deregister and drop
 A token that does not parse or names a missing handle yields `!`.
@@ -42,22 +43,19 @@ def treeLine (tr : Tree) : String :=
 def digest (tr : Tree) : Nat := polyHash (treeLine tr)
 
 structure St where
-  trees : Array Tree
+  trees : Array TreeC              -- each tree with its own cursors (`Model.BTree.TreeC`: mutations park them)
   digs : Array Nat                 -- digest per tree (trees are values: recomputed only for the mutated one)
-  curs : Array (Nat × Cursor × Bool)  -- (tree, cursor, open)
+  curs : Array (Nat × Nat × Bool)  -- global cursor id -> (tree, index among the tree's cursors, open)
+  isSet : Bool                     -- `BTreeSet` (`remove` checks membership first) or `BTreeDict`
 
 def St.digests (s : St) : String := ",".intercalate (s.digs.toList.map toString)
 
-def St.setTree (s : St) (h : Nat) (tr : Tree) : St :=
-  { s with trees := s.trees.setIfInBounds h tr, digs := s.digs.setIfInBounds h (digest tr) }
-
-/-- `_check_mutable_and_park`: park every registered cursor of tree `h` -/
-def St.parkAll (s : St) (h : Nat) : St :=
-  { s with curs := s.curs.map fun (th, c, o) => if th = h ∧ o then (th, c.park, o) else (th, c, o) }
+def St.setTC (s : St) (h : Nat) (tc : TreeC) : St :=
+  { s with trees := s.trees.setIfInBounds h tc, digs := s.digs.setIfInBounds h (digest tc.tree) }
 
 def mutLine (s : St) (h : Nat) (res : String) : String :=
   match s.trees[h]? with
-  | some tr => res ++ "|" ++ toString tr.size ++ "|" ++ showShape tr.root ++ "|" ++ s.digests
+  | some tc => res ++ "|" ++ toString tc.tree.size ++ "|" ++ showShape tc.tree.root ++ "|" ++ s.digests
   | none => "!"
 
 def outcomeStr : Outcome (Option Elt) → String
@@ -66,7 +64,23 @@ def outcomeStr : Outcome (Option Elt) → String
   | .valueError => "VE"
   | .indexError => "EXC:IndexError"
 
+def apiStr {α} (f : α → String) : Except ApiErr α → String
+  | .ok a => f a
+  | .error .keyError => "KE"
+  | .error .immutable => "IMM"
+  | .error .valueError => "VE"
+  | .error .indexError => "EXC:IndexError"
+
 def nats (fs : List String) : Option (List Nat) := fs.mapM String.toNat?
+
+/-- run `f` on the tree and local index of global cursor `c` (if it is open) -/
+def withCur (s : St) (c : Nat) (f : TreeC → Nat → TreeC × String) : St × String :=
+  match s.curs[c]? with
+  | some (h, i, true) =>
+    match s.trees[h]? with
+    | some tc => let (tc', r) := f tc i; ({ s with trees := s.trees.setIfInBounds h tc' }, r)
+    | none => (s, "!")
+  | _ => (s, "!")
 
 def step (s : St) (tok : String) : St × String :=
   match tok.splitOn "," with
@@ -78,108 +92,98 @@ def step (s : St) (tok : String) : St × String :=
       | "I", [h, k, v] =>
         match s.trees[h]? with
         | none => (s, "!")
-        | some tr =>
-          let (tr', r) := tr.insert (k, v)
-          let s := (match r with | .immutableErr => s | _ => s.parkAll h).setTree h tr'
-          (s, mutLine s h (outcomeStr r))
+        | some tc => let (tc', r) := tc.insert (k, v); let s := s.setTC h tc'; (s, mutLine s h (outcomeStr r))
       | "D", [h, k] =>
         match s.trees[h]? with
         | none => (s, "!")
-        | some tr =>
-          let (tr', r) := tr.delete k none
-          let s := (match r with | .immutableErr => s | _ => s.parkAll h).setTree h tr'
-          (s, mutLine s h (outcomeStr r))
+        | some tc => let (tc', r) := tc.delete k none; let s := s.setTC h tc'; (s, mutLine s h (outcomeStr r))
       | "X", [h, k, v] =>
         match s.trees[h]? with
         | none => (s, "!")
-        | some tr =>
-          let (tr', r) := tr.delete k (some (k, v))
-          let s := (match r with | .immutableErr => s | _ => s.parkAll h).setTree h tr'
-          (s, mutLine s h (outcomeStr r))
+        | some tc => let (tc', r) := tc.delete k (some (k, v)); let s := s.setTC h tc'; (s, mutLine s h (outcomeStr r))
+      | "O", [h, k] =>   -- d.pop(k)
+        match s.trees[h]? with
+        | none => (s, "!")
+        | some tc => let (tc', r) := Dict.pop tc k; let s := s.setTC h tc'; (s, mutLine s h (apiStr toString r))
+      | "R", [h, k] =>   -- del d[k] / s.remove(k)
+        match s.trees[h]? with
+        | none => (s, "!")
+        | some tc =>
+          let (tc', r) := if s.isSet then SetApi.remove tc k else Dict.delitem tc k
+          let s := s.setTC h tc'
+          (s, mutLine s h (apiStr (fun _ => "ok") r))
       | "G", [h, k] =>
         match s.trees[h]? with
         | none => (s, "!")
-        | some tr => (s, showOpt (tr.get k))
+        | some tc => (s, showOpt (tc.tree.get k))
+      | "g", [h, k] =>   -- k in d / k in s
+        match s.trees[h]? with
+        | none => (s, "!")
+        | some tc => (s, if Dict.contains tc.tree k then "1" else "0")
       | "L", [h] =>
         match s.trees[h]? with
         | none => (s, "!")
-        | some tr => (s, toString tr.size)
+        | some tc => (s, toString (Dict.len tc.tree))
       | "T", [h] =>
         match s.trees[h]? with
         | none => (s, "!")
-        | some tr => (s, "[" ++ showElts tr.items ++ "]")
+        | some tc => (s, "[" ++ showElts tc.tree.items ++ "]")
+      | "K", [h] =>   -- list(d) / d.keys(): iteration with a registered cursor
+        match s.trees[h]? with
+        | none => (s, "!")
+        | some tc => (s, "[" ++ ",".intercalate ((Dict.keys tc.tree).map toString) ++ "]")
+      | "V", [h] =>   -- d.values()
+        match s.trees[h]? with
+        | none => (s, "!")
+        | some tc => (s, "[" ++ ",".intercalate ((Dict.values tc.tree).map toString) ++ "]")
       | "S", [h] =>
         match s.trees[h]? with
         | none => (s, "!")
-        | some tr => (s, showShape tr.root)
+        | some tc => (s, showShape tc.tree.root)
       | "M", [h] =>
         match s.trees[h]? with
         | none => (s, "!")
-        | some tr =>
+        | some tc =>
+          let tr := tc.tree
           if tr.size = 0 then (s, "-")
           else (s, showElt (minimum (height tr.root) tr.root) ++ "/" ++ showElt (maximum (height tr.root) tr.root))
       | "C", [h, io] =>
         match s.trees[h]? with
         | none => (s, "!")
-        | some tr =>
-          match tr.clone (io != 0) with
+        | some tc =>
+          match tc.tree.clone (io != 0) with
           | none => (s, "VE")
-          | some c => ({ s with trees := s.trees.push c, digs := s.digs.push (digest c) }, toString s.trees.size)
+          | some c => ({ s with trees := s.trees.push ⟨c, []⟩, digs := s.digs.push (digest c) }, toString s.trees.size)
       | "F", [h] =>
         match s.trees[h]? with
         | none => (s, "!")
-        | some tr => (s.setTree h tr.makeImmutable, "ok")
+        | some tc => (s.setTC h { tc with tree := tc.tree.makeImmutable }, "ok")
       | "c", [h] =>
         match s.trees[h]? with
         | none => (s, "!")
-        | some _ => ({ s with curs := s.curs.push (h, {}, true) }, toString s.curs.size)
-      | "s", [c, k, b] =>
-        match s.curs[c]? with
-        | some (h, _, true) =>
-          match s.trees[h]? with
-          | some tr => ({ s with curs := s.curs.setIfInBounds c (h, Cursor.seek tr.root k (b != 0), true) }, "ok")
-          | none => (s, "!")
-        | _ => (s, "!")
-      | "n", [c] =>
-        match s.curs[c]? with
-        | some (h, cu, true) =>
-          match s.trees[h]? with
-          | some tr =>
-            let (cu', r) := cu.next tr.root
-            ({ s with curs := s.curs.setIfInBounds c (h, cu', true) }, showOpt r)
-          | none => (s, "!")
-        | _ => (s, "!")
-      | "p", [c] =>
-        match s.curs[c]? with
-        | some (h, cu, true) =>
-          match s.trees[h]? with
-          | some tr =>
-            let (cu', r) := cu.prev tr.root
-            ({ s with curs := s.curs.setIfInBounds c (h, cu', true) }, showOpt r)
-          | none => (s, "!")
-        | _ => (s, "!")
-      | "f", [c] =>
-        match s.curs[c]? with
-        | some (h, cu, true) => ({ s with curs := s.curs.setIfInBounds c (h, cu.seekFirst, true) }, "ok")
-        | _ => (s, "!")
-      | "l", [c] =>
-        match s.curs[c]? with
-        | some (h, cu, true) => ({ s with curs := s.curs.setIfInBounds c (h, cu.seekLast, true) }, "ok")
-        | _ => (s, "!")
-      | "P", [c] =>
-        match s.curs[c]? with
-        | some (h, cu, true) => ({ s with curs := s.curs.setIfInBounds c (h, cu.park, true) }, "ok")
-        | _ => (s, "!")
+        | some tc =>
+          let (tc', i) := tc.register
+          ({ s with trees := s.trees.setIfInBounds h tc', curs := s.curs.push (h, i, true) }, toString s.curs.size)
+      | "s", [c, k, b] => withCur s c fun tc i => (tc.setCursor i (fun _ => Cursor.seek tc.tree.root k (b != 0)), "ok")
+      | "n", [c] => withCur s c fun tc i => let (tc', r) := tc.next i; (tc', showOpt r)
+      | "p", [c] => withCur s c fun tc i => let (tc', r) := tc.prev i; (tc', showOpt r)
+      | "f", [c] => withCur s c fun tc i => (tc.setCursor i Cursor.seekFirst, "ok")
+      | "l", [c] => withCur s c fun tc i => (tc.setCursor i Cursor.seekLast, "ok")
+      | "P", [c] => withCur s c fun tc i => (tc.setCursor i Cursor.park, "ok")
       | "x", [c] =>
         match s.curs[c]? with
-        | some (h, cu, true) => ({ s with curs := s.curs.setIfInBounds c (h, cu, false) }, "ok")
+        | some (h, i, true) =>
+          match s.trees[h]? with
+          | some tc =>
+            ({ s with trees := s.trees.setIfInBounds h (tc.deregister i), curs := s.curs.setIfInBounds c (h, i, false) }, "ok")
+          | none => (s, "!")
         | _ => (s, "!")
       | _, _ => (s, "!")
   | [] => (s, "!")
 
-def runHist (t : Nat) (io : Bool) (ca : Bool) (ops : List String) : String :=
+def runHist (t : Nat) (io : Bool) (ca : Bool) (isSet : Bool) (ops : List String) : String :=
   let tr := Tree.empty t io ca
-  let s0 : St := { trees := #[tr], digs := #[digest tr], curs := #[] }
+  let s0 : St := { trees := #[⟨tr, []⟩], digs := #[digest tr], curs := #[], isSet := isSet }
   let (_, out) := ops.foldl (fun (acc : St × Array String) tok =>
     let (s', r) := step acc.1 tok
     (s', acc.2.push r)) (s0, #[])
@@ -211,6 +215,7 @@ structure CowSt where
   hs : Array Handle
   ser : Array Nat
   nxt : Nat
+  isSet : Bool
 
 open Model.BTreeCow in
 /-- dump every tree; returns the new serial state, the line of tree `h`, and the digests of all trees -/
@@ -227,11 +232,14 @@ def CowSt.dumpAll (s : CowSt) (h : Nat) : CowSt × String × String :=
   ({ s with ser := ser, nxt := nxt }, mine, ",".intercalate (digs.toList.map toString))
 
 open Model.BTreeCow in
-def cowMut (s : CowSt) (h : Nat) (res : World × Handle × Outcome (Option Elt)) : CowSt × String :=
-  let (w, hd, r) := res
+def cowMutS (s : CowSt) (h : Nat) (w : World) (hd : Handle) (res : String) : CowSt × String :=
   let s := { s with w := w, hs := s.hs.setIfInBounds h hd }
   let (s, mine, digs) := s.dumpAll h
-  (s, outcomeStr r ++ "|" ++ toString hd.size ++ "|" ++ mine ++ "|" ++ digs)
+  (s, res ++ "|" ++ toString hd.size ++ "|" ++ mine ++ "|" ++ digs)
+
+open Model.BTreeCow in
+def cowMut (s : CowSt) (h : Nat) (res : World × Handle × Outcome (Option Elt)) : CowSt × String :=
+  cowMutS s h res.1 res.2.1 (outcomeStr res.2.2)
 
 open Model.BTreeCow in
 def cowStep (s : CowSt) (tok : String) : CowSt × String :=
@@ -253,6 +261,26 @@ def cowStep (s : CowSt) (tok : String) : CowSt × String :=
         match s.hs[h]? with
         | none => (s, "!")
         | some hd => cowMut s h (hd.delete s.w k (some (k, v)))
+      | "O", [h, k] =>   -- d.pop(k): value = d[k] (KeyError), then del d[k]
+        match s.hs[h]? with
+        | none => (s, "!")
+        | some hd =>
+          match hd.get s.w k with
+          | none => cowMutS s h s.w hd "KE"
+          | some e =>
+            let (w, hd', r) := hd.delete s.w k none
+            cowMutS s h w hd' (match r with | .ok _ => toString e.2 | r => outcomeStr r)
+      | "R", [h, k] =>   -- del d[k] / s.remove(k)
+        match s.hs[h]? with
+        | none => (s, "!")
+        | some hd =>
+          if s.isSet && (hd.get s.w k).isNone then cowMutS s h s.w hd "KE"
+          else
+            let (w, hd', r) := hd.delete s.w k none
+            cowMutS s h w hd' (match r with
+              | .ok (some _) => "ok"
+              | .ok none => if s.isSet then "ok" else "KE"
+              | r => outcomeStr r)
       | "G", [h, k] =>
         match s.hs[h]? with
         | none => (s, "!")
@@ -272,9 +300,9 @@ def cowStep (s : CowSt) (tok : String) : CowSt × String :=
   | [] => (s, "!")
 
 open Model.BTreeCow in
-def runCow (t : Nat) (io ca : Bool) (ops : List String) : String :=
+def runCow (t : Nat) (io ca isSet : Bool) (ops : List String) : String :=
   let (w, hd) := newTree { heap := #[], nextCreator := 0 } t io ca
-  let s0 : CowSt := { w := w, hs := #[hd], ser := #[], nxt := 0 }
+  let s0 : CowSt := { w := w, hs := #[hd], ser := #[], nxt := 0, isSet := isSet }
   let (_, out) := ops.foldl (fun (acc : CowSt × Array String) tok =>
     let (s', r) := cowStep acc.1 tok
     (s', acc.2.push r)) (s0, #[])
@@ -283,18 +311,20 @@ def runCow (t : Nat) (io ca : Bool) (ops : List String) : String :=
 end C19
 
 def handleC19 : List String → Option String
-  | "c19.hist" :: t :: io :: ca :: ops => do
+  | "c19.hist" :: t :: io :: ca :: kind :: ops => do
     let t ← t.toNat?
     let io ← parseBool io
     let ca ← parseBool ca
+    let isSet ← parseBool kind
     if t < 3 then some "err ValueError" else
-    some (C19.runHist t io ca ops)
-  | "c19.cow" :: t :: io :: ca :: ops => do
+    some (C19.runHist t io ca isSet ops)
+  | "c19.cow" :: t :: io :: ca :: kind :: ops => do
     let t ← t.toNat?
     let io ← parseBool io
     let ca ← parseBool ca
+    let isSet ← parseBool kind
     if t < 3 then some "err ValueError" else
-    some (C19.runCow t io ca ops)
+    some (C19.runCow t io ca isSet ops)
   | ["c19.search", key, ks] => do
     -- search_in_node on a node whose element keys are `ks` (comma separated, `-` = empty)
     let key ← key.toNat?
